@@ -82,7 +82,8 @@ def cases(tier, seed):
                         yield {"kind": kind, "nx": nx, "nz": nz, "mask": mask,
                                "inf": inf, "ztype": ztype, "variant": variant,
                                "grid": ["row", "col", "both"][j % 3]
-                               if variant == "grid" else None, "opts": o}
+                               if variant == "grid" else None, "opts": o,
+                               "stored": (j // 4 + t) % 3}
         # many series: the legend -> colour bar switch
         for nz in ((10, 11) if tier == "quick" else (9, 10, 11, 12)):
             for o in ({}, {"colors": True}, {"colors": True, "legend": True}):
@@ -174,6 +175,15 @@ def make_line_ds(case):
         ds = ds.isel(r=0, drop=True)
     if nq == 1:
         ds = ds.isel(q=0, drop=True)
+    # the order the variables' dimensions are stored in is not the order the
+    # plot is asked for
+    st = case.get("stored", 0)
+    if st:
+        for v in list(ds.data_vars):
+            dd = list(ds[v].dims)
+            if len(dd) > 1:
+                ds[v] = ds[v].transpose(*(dd[::-1] if st == 1
+                                          else dd[1:] + dd[:1]))
     return ds, zs, nr, nq
 
 
@@ -274,7 +284,8 @@ def check_lines(case):
         vio.append((key("panels"), "%d panels for a %dx%d grid"
                     % (len(axes), nr, nq)))
         return fin(case, vio)
-    yarr = before["y"].values.reshape(
+    canon = [d_ for d_ in ("x", "z", "r", "q") if d_ in before["y"].dims]
+    yarr = before["y"].transpose(*canon).values.reshape(
         (nx, nz) + ((2,) if nr == 2 else ()) + ((2,) if nq == 2 else ()))
     for ir in range(nr):
         for iq in range(nq):
@@ -351,7 +362,7 @@ def check_lines(case):
                                     % (iz, got, tuple(exp[iz]), opts)))
                         break
             if variant == "c" and kind == "scatter" and len(arts) == nz:
-                cvals = before["cpt"].values
+                cvals = before["cpt"].transpose(*canon).values
                 lo, hi = float(np.nanmin(cvals)), float(np.nanmax(cvals))
                 for iz in range(nz):
                     a = arts[iz]
